@@ -48,6 +48,27 @@ def c12_concurrent(rep, tier):
                           {"engine": "conc", "module": "checks_conc_extra", "scenario": sc, "schedule": h["schedule"], "history": h["ev"]})
     if hs:
         rep.sample({"handover_scenario": hs[0][0]["threads"], "history": hs[0][1]["ev"][:14]})
+    # registrations changed by two threads at once (add in one, remove in the other), then messages are logged
+    scs = [{"kind": "regrace", "initial": [1, 2], "add": [3], "remove": [1], "post": [1, 2], "max_pre": 2, "cap": 120 if quick else 3000,
+            "random": 0, "seed": 1, "budget_s": 60},
+           {"kind": "regrace", "initial": [1, 2, 3], "add": [4, 5], "remove": [2, 3], "post": [1], "max_pre": 2, "cap": 120 if quick else 3000,
+            "random": 20 if quick else 500, "seed": 2, "budget_s": 60}]
+    results = run_scenarios(scs)
+    hs = [(res["scenario"], h) for res in results for h in res["runs"]]
+    acc, st = tlc_accepts("RegA", "RegA.cfg", [h for _, h in hs])
+    rep.cov["states"] += st
+    rep.cov["transitions"] += st
+    for (sc, h), a in zip(hs, acc):
+        rep.cov["traces_validated_against_impl"] += 1
+        rep.count_case(["regrace", sc["add"], sc["remove"], h["schedule"]], len(set(h["schedule"])) > 1)
+        if h["errors"]:
+            rep.violation("add/remove of destinations raised under concurrency: %s" % h["errors"][:2],
+                          {"engine": "conc", "module": "checks_conc_extra", "scenario": sc, "schedule": h["schedule"]})
+        elif a is None:
+            raise MachineryFailure("no verdict for a registration history")
+        elif a[2]:
+            rep.violation("destinations added and removed by two threads at once: %s" % a[2],
+                          {"engine": "conc", "module": "checks_conc_extra", "scenario": sc, "schedule": h["schedule"], "history": h["ev"]})
 
 
 def c06_once(rep, tier):
